@@ -87,6 +87,7 @@ def run(chk: Check) -> None:
     _presence_flag(chk, pf)
     _submessage_presence(chk, schema, pf, msgs)
     _write_conditions(chk, schema, pf, msgs)
+    chk.floor("R02.2", "writer functions scanned for refusals", writers_total(chk, "R02.2"), 8)
     _writer_agreement(chk, schema, pf, msgs)
     _reader_agreement(chk, schema, pf, msgs)
     _enums(chk, schema, pf)
@@ -119,13 +120,15 @@ def _coverage(chk: Check, schema: Schema, pf: ProtoFlow, msgs: List[str]) -> Non
             w = pf.written(m, fname)
             loc = w[0].loc if w else "%s:%d" % (M.file, fld.line)
             chk.ob("R02.1", "%s.%s:written" % (m, fname), bool(w), loc,
-                   "no writer assigns %s.%s: the field is always saved at its default" % (m, fname), 2)
+                   "no writer assigns %s.%s: the field is always saved at its default" % (m, fname), 2,
+                   undecided=m in pf.dynamic)
             r = pf.read(m, fname)
             if (m, fname) in READ_EXEMPT:
                 continue
             loc = r[0].loc if r else "%s:%d" % (M.file, fld.line)
             chk.ob("R02.3", "%s.%s:read" % (m, fname), bool(r), loc,
-                   "no reader reads %s.%s: the field is ignored on load" % (m, fname), 2)
+                   "no reader reads %s.%s: the field is ignored on load" % (m, fname), 2,
+                   undecided=m in pf.dynamic)
         for g, alts in M.oneofs.items():
             # at most one alternative on any path of a writer function
             by_func: Dict[str, List[Access]] = {}
@@ -1121,6 +1124,45 @@ def _write_conditions(chk: Check, schema: Schema, pf: ProtoFlow, msgs: List[str]
                 chk.ob("R02.2", "%s.%s@%s:written-unconditionally" % (m, fname, f.qualname), not bad, w.loc,
                        "%s writes %s.%s only when %s: objects for which that does not hold lose the "
                        "field in the saved message" % (f.qualname, m, fname, " and ".join(bad)), 2)
+    return n
+
+
+def writers_total(chk: Check, rule: str) -> int:
+    """every IR the model allows can be saved: a writer refuses nothing but an object of a kind
+    it has no message for (the else of an isinstance dispatch).  A ``raise`` under any other
+    condition turns some state the API accepted into a file that cannot be written."""
+    n = 0
+    for f in chk.repo.all_functions():
+        g: Optional[FuncInfo] = f
+        writer = False
+        while g is not None:
+            if g.name in ("_to_protobuf", "_write_protobuf_aux_data"):
+                writer = True
+            g = g.outer
+        if not writer:
+            continue
+        raises = [x for x in walk_no_nested(f.node) if isinstance(x, ast.Raise)]
+        n += 1
+        if not raises:
+            continue
+        chk.saw(f)
+        cfg = CFG(f.node)
+        for r in raises:
+            try:
+                node = cfg.node_of(r)
+            except AnalysisError:
+                continue
+            bad = []
+            for t, v in cfg.facts_at(node):
+                if isinstance(t, ast.stmt):
+                    continue
+                if isinstance(t, ast.Call) and attr_path(t.func) == ("isinstance",):
+                    continue
+                bad.append("%s is %s" % (unparse(t)[:60], v))
+            chk.ob(rule, "%s:raise(%s):only-for-unknown-kinds" % (f.qualname, unparse(r.exc)[:30] if r.exc else ""),
+                   not bad, f.loc(r),
+                   "%s refuses to write when %s: an IR the API let the client build cannot be saved"
+                   % (f.qualname, " and ".join(bad)), 2)
     return n
 
 
